@@ -4,23 +4,26 @@
 # Writes <worktree>/MUTANTS/<m>/VERIFY.txt with the outcome lines.
 wt=$1; shift
 cd "$wt" || exit 2
-git checkout -q -- . 2>/dev/null
-if [ ! -f _build/.fresh ]; then
-  rm -rf _build
-  cmake -G Ninja -S . -B _build -DCMAKE_BUILD_TYPE=RelWithDebInfo -DCMAKE_CXX_COMPILER=clang++-16 -DCMAKE_C_COMPILER=clang-16 >/dev/null 2>&1 || { echo "configure failed"; exit 2; }
-  touch _build/.fresh
+src="lib include products unittests utils CMakeLists.txt"
+git checkout -q -- $src 2>/dev/null
+B=$(ls -d _build_c* 2>/dev/null | head -1)
+if [ -z "$B" ]; then
+  B=_vbuild
+  if [ ! -f $B/build.ninja ]; then
+    cmake -G Ninja -S . -B $B -DCMAKE_BUILD_TYPE=RelWithDebInfo -DCMAKE_CXX_COMPILER=clang++-16 -DCMAKE_C_COMPILER=clang-16 >/dev/null 2>&1 || { echo "configure failed"; exit 2; }
+  fi
 fi
-build() { cmake --build _build >/dev/null 2>&1; }
-tests() { local rc=0; for t in BasicTests BuildSystemTests CAPITests CASTests CoreTests EvoTests NinjaTests; do ./_build/bin/$t >/dev/null 2>&1 || { echo "  unit test binary $t FAILED"; rc=1; }; done; return $rc; }
+build() { cmake --build $B >/dev/null 2>&1; }
+tests() { local rc=0; for t in BasicTests BuildSystemTests CAPITests CASTests CoreTests EvoTests NinjaTests; do ./$B/bin/$t >/dev/null 2>&1 || { echo "  unit test binary $t FAILED"; rc=1; }; done; return $rc; }
 for m in "$@"; do
   out=MUTANTS/$m/VERIFY.txt
-  : > $out
-  git checkout -q -- . ; git apply MUTANTS/$m/patch.diff 2>>$out || { echo "patch does not apply" >> $out; continue; }
-  if build; then echo "builds with patch: yes" >> $out; else echo "builds with patch: NO" >> $out; git checkout -q -- .; continue; fi
+  echo "build dir: $B" > $out
+  git checkout -q -- $src ; git apply MUTANTS/$m/patch.diff 2>>$out || { echo "patch does not apply" >> $out; continue; }
+  if build; then echo "builds with patch: yes" >> $out; else echo "builds with patch: NO" >> $out; git checkout -q -- $src; continue; fi
   if tests >> $out; then echo "unit tests with patch: pass" >> $out; else echo "unit tests with patch: FAIL" >> $out; fi
-  if BUILD_DIR=_build timeout 600 bash MUTANTS/$m/run_demo.sh >/dev/null 2>&1; then echo "demo with patch: passes (BAD)" >> $out; else echo "demo with patch: fails (good)" >> $out; fi
-  git checkout -q -- .
+  if BUILD_DIR=$B timeout 900 bash MUTANTS/$m/run_demo.sh >/dev/null 2>&1; then echo "demo with patch: passes (BAD)" >> $out; else echo "demo with patch: fails (good)" >> $out; fi
+  git checkout -q -- $src
   build
-  if BUILD_DIR=_build timeout 600 bash MUTANTS/$m/run_demo.sh >/dev/null 2>&1; then echo "demo without patch: passes (good)" >> $out; else echo "demo without patch: FAILS (BAD)" >> $out; fi
+  if BUILD_DIR=$B timeout 900 bash MUTANTS/$m/run_demo.sh >/dev/null 2>&1; then echo "demo without patch: passes (good)" >> $out; else echo "demo without patch: FAILS (BAD)" >> $out; fi
   echo "== $wt $m"; cat $out
 done
